@@ -358,6 +358,13 @@ func execute(c *mc.Ctx, tier string, store sk.Kind, history []string, fullOracle
 				cause = "after-good-block"
 			}
 		case 'x':
+			if !m.Halted && fullOracle {
+				// the API has been serving queries before the store halts: every data query is invoked on the same
+				// objects right before the inconsistent block arrives (answers cached then must not outlive the halt)
+				if he := warmUp(c, cl, n, chain, m); he != nil {
+					return "", nil, he
+				}
+			}
 			num := chain.Tip() + 1
 			if e.Far {
 				num++
@@ -517,6 +524,28 @@ func describe(b aggsync.Block) string {
 }
 
 // oracle invokes every exported method of the facade with every generated argument tuple.
+// warmUp invokes every data query with the first generated argument tuples (the same ones the oracle starts with
+// afterwards), ignoring the answers.
+const warmTuples = 8
+
+func warmUp(c *mc.Ctx, cl *classification, n *sk.Node, chain *sk.Chain, m mstate) *herr {
+	p := statePools(chain, []uint64{m.Refused})
+	fac := reflect.ValueOf(facadeOf(n))
+	for _, q := range cl.Methods {
+		tl, err := tuples(q, p, warmTuples)
+		if err != nil {
+			return &herr{err.Error()}
+		}
+		for _, args := range tl {
+			if a := invoke(fac, q, args, false); a.Panic != "" {
+				return &herr{fmt.Sprintf("method %s panicked (%s): %s", q.Name, a.Call, a.Panic)}
+			}
+		}
+	}
+	c.Witness("queries_served_right_before_the_halting_block")
+	return nil
+}
+
 func oracle(c *mc.Ctx, cl *classification, n *sk.Node, chain *sk.Chain, m mstate, history []string, cause string) *herr {
 	S := string(n.Kind)
 	p := statePools(chain, []uint64{m.Refused})
